@@ -16,3 +16,6 @@ def check(A):
         R.service_task_rules(A, fl, 'C07')
         R.handle_connect_rules(A, fl, 'C07')
         S.receive_table(A, fl, 'C07')
+        R.queue_unbounded_rule(A, fl, 'C07')
+        R.last_ping_writers_rule(A, fl, 'C07')
+        R.sweep_complete_rule(A, fl, 'C07')
